@@ -69,6 +69,30 @@ Theorem C04_order_independent : forall (K A : Type) (keqb : K -> K -> bool) (zer
 Proof. exact @update_perm. Qed.
 Print Assumptions C04_order_independent.
 
+(* ... and so does a whole run: if every period of trace' is the corresponding period of trace with the
+   entries of its mapping permuted, both runs end the same way (same exception class, if any) with the
+   same matrix, the same iteration counter and the same pilots sent in every period. *)
+Theorem C04_order_independent_run : forall (K A : Type) (keqb : K -> K -> bool) (zero : A),
+  (forall a b, keqb a b = true <-> a = b) ->
+  forall (ids : list K) (last0 : option Z) (trace trace' : list (period_in K A)),
+  Forall2 (fun a b => p_last a = p_last b /\
+             match p_sub a, p_sub b with
+             | None, None => True
+             | Some s, Some s' => Permutation s s' /\ NoDup (map fst s)
+             | _, _ => False
+             end) trace trace' ->
+  match run keqb zero ids (init zero ids last0) trace, run keqb zero ids (init zero ids last0) trace' with
+  | OkS a, OkS b => pil a = pil b /\ itn a = itn b /\ sent a = sent b
+  | ErrS e a, ErrS e' b => e = e' /\ pil a = pil b /\ itn a = itn b /\ sent a = sent b
+  | _, _ => False
+  end.
+Proof.
+  exact (fun K A keqb zero H ids last0 t t' H2 =>
+           run_perm_thm keqb zero H ids t t' H2 (init zero ids last0) (init zero ids last0)
+             (conj eq_refl (conj eq_refl eq_refl))).
+Qed.
+Print Assumptions C04_order_independent_run.
+
 (* _increase_width keeps every entry, appends zeros, never shrinks. *)
 Theorem C04_growth_preserves : forall (A : Type) (zero : A) (n : nat) (m : pmat A) (target : Z),
   wfm n m ->
@@ -126,6 +150,27 @@ Proof.
                 (fun k1 r1 k2 r2 => reject_ragged_thm keqb zero H ids last it p s k1 r1 k2 r2)).
 Qed.
 Print Assumptions C04_reject_atomic.
+
+(* Complete case analysis of _update_schedules on a well-formed matrix: it returns normally exactly for
+   the empty mapping (matrix untouched) and for non-empty mappings over known stations with rows of one
+   length; otherwise it raises KeyError (some station unknown) or InvalidScheduleError (all known, two
+   rows of different lengths) — no other exception — and in every error case the matrix is untouched. *)
+Theorem C04_outcomes : forall (K A : Type) (keqb : K -> K -> bool) (zero : A),
+  (forall a b, keqb a b = true <-> a = b) ->
+  forall (ids : list K) (last : option Z) (it : nat) (p : pmat A) (s : schedule K A),
+  wfm (length ids) p ->
+  match update_schedules keqb zero ids last it p s with
+  | OkS p' =>
+      (s = [] /\ p' = p) \/
+      (s <> [] /\ (forall k row, In (k, row) s -> In k ids /\ length row = sub_len s))
+  | ErrS e pe =>
+      pe = p /\
+      ((e = "KeyError"%string /\ exists k row, In (k, row) s /\ ~ In k ids) \/
+       (e = "InvalidScheduleError"%string /\ (forall k row, In (k, row) s -> In k ids) /\
+        exists k1 r1 k2 r2, In (k1, r1) s /\ In (k2, r2) s /\ length r1 <> length r2))
+  end.
+Proof. exact @classify_thm. Qed.
+Print Assumptions C04_outcomes.
 
 (* ... and run() is left with that exception in exactly the state reached at the end of the previous
    period: matrix, iteration counter, schedule history and the pilots already sent are unchanged. *)
